@@ -18,6 +18,7 @@ EXPLANATION = (
     "value of the row addressed by index_correlation iff index_correlation > 0 (strict: 0 = partner absent), else -1, after the host store; trimming keeps host "
     "rows with ts < max(ts of step rows) or, for include_last, ts <= max(end of step rows), plus device rows inner-joined on the kept host rows' correlation; no "
     "trimming below two steps; the end column read by the inclusive cut-off is coherent (end = ts + dur after the shift)."
+    " Later additions: side complement and no device-side time cut in the trim, value-preserving rewrites of the iteration column, step-name set agreement decided by regex-language comparison."
 )
 TM = "hta.common.trace"
 
